@@ -69,6 +69,68 @@ func (c *RecCase) Exec(t *eng.T) {
 	}
 }
 
+// DepthCase: a recursion WITH a base case at depth K renders (or is refused) alike whether the macro is local,
+// imported or imported under an alias; far below the limit it renders, far above it is refused.
+type DepthCase struct {
+	K     int    `json:"k"`
+	Shape string `json:"shape"` // direct | mutual
+}
+
+func (c *DepthCase) ID() string {
+	return fmt.Sprintf("recursion with base case, depth %d, %s", c.K, c.Shape)
+}
+
+func (c *DepthCase) Exec(t *eng.T) {
+	t.Nontrivial()
+	def := func(export string) string {
+		if c.Shape == "mutual" {
+			return "{% macro down(n) " + export + "%}{% if n > 0 %}{{ up(n - 1) }}{% else %}bottom{% endif %}{% endmacro %}{% macro up(n) " + export + "%}{% if n > 0 %}{{ down(n - 1) }}{% else %}bottom{% endif %}{% endmacro %}"
+		}
+		return "{% macro down(n) " + export + "%}{% if n > 0 %}{{ down(n - 1) }}{% else %}bottom{% endif %}{% endmacro %}"
+	}
+	call := fmt.Sprintf("{{ down(%d) }}", c.K)
+	routes := []struct {
+		name  string
+		files map[string]string
+	}{
+		{"local", map[string]string{"/main": def("") + call}},
+		{"imported", map[string]string{"/main": `{% import "lib" down, up %}` + call, "/lib": def("export ")}},
+		// under an alias AND under its own name (the body refers to itself by its own name)
+		{"aliased", map[string]string{"/main": `{% import "lib" down as dn, down, up %}` + fmt.Sprintf("{{ dn(%d) }}", c.K), "/lib": def("export ")}},
+	}
+	if c.Shape != "mutual" {
+		routes[1].files["/main"] = `{% import "lib" down %}` + call
+		routes[2].files["/main"] = `{% import "lib" down as dn, down %}` + fmt.Sprintf("{{ dn(%d) }}", c.K)
+	}
+	var outs []string
+	for _, rt := range routes {
+		o := px.RenderFile(rt.files, "/main", pongo2.Context{})
+		if o.Panic != "" {
+			t.Fail("recursion:panic", "%s (%s) panics: %s", c.ID(), rt.name, o.PanicMsg)
+			return
+		}
+		outs = append(outs, o.Kind()+":"+o.S)
+	}
+	t.Outcome(outs[0])
+	if outs[1] != outs[0] || outs[2] != outs[0] {
+		t.Fail("recursion:depth-differs-by-route", "%s: local gives %s, imported %s, aliased %s - an imported macro must behave exactly like the same macro defined locally", c.ID(), head40(outs[0]), head40(outs[1]), head40(outs[2]))
+		return
+	}
+	if c.K <= 900 && outs[0] != "ok:bottom" {
+		t.Fail("recursion:refused-below-limit", "%s: %s", c.ID(), head40(outs[0]))
+	}
+	if c.K >= 1100 && strings.HasPrefix(outs[0], "ok:") {
+		t.Fail("recursion:no-error", "%s renders although it is nested deeper than the fixed limit", c.ID())
+	}
+}
+
+func head40(s string) string {
+	if len(s) > 60 {
+		return s[:60] + "..."
+	}
+	return s
+}
+
 func run(r *eng.Runner) {
 	// the context also holds entries named like the parameters: an omitted parameter must not fall through to them
 	ctx := map[string]V{"tainted": StrV("<&>"), "lst": ListV(IntV(1), IntV(2)), "n": IntV(4), "dflt": StrV("cd"),
@@ -212,6 +274,17 @@ func run(r *eng.Runner) {
 		}
 	}
 
+	r.Group("depth-boundary", "c13.depth", "a recursive macro with a base case at depth K for every K in 990..1010 (and 10, 500, 900, 1100, 2000), direct and mutual: local, imported and aliased definitions agree on rendering / refusing, each K in a fresh sub-process")
+	for _, shape := range []string{"direct", "mutual"} {
+		ks := []int{10, 500, 900, 1100, 2000}
+		for k := 990; k <= 1010; k++ {
+			ks = append(ks, k)
+		}
+		for _, k := range ks {
+			r.DoIsolated(&DepthCase{K: k, Shape: shape}, 60*time.Second)
+		}
+	}
+
 	// ---- runaway recursion: every call graph over 1..3 macros in which every macro calls another ----
 	r.Group("recursion", "c13.rec", "all call graphs over 1..3 macros in which every macro calls exactly one macro (no base case) x every assignment of the macros to {local file, imported file} x {call in the body, call in a parameter default}; each run in a fresh sub-process (a stack overflow kills the process)")
 	for n := 1; n <= 3; n++ {
@@ -260,6 +333,7 @@ func run(r *eng.Runner) {
 }
 
 func init() {
+	eng.RegisterCase("c13.depth", func() eng.Case { return &DepthCase{} })
 	eng.RegisterCase("c13.rec", func() eng.Case { return &RecCase{} })
 	eng.Register(&eng.Check{
 		ID:    "C13",
